@@ -156,15 +156,15 @@ Proof.
   - rewrite IH. reflexivity.
 Qed.
 
-Theorem switch_vs_leave st c s fs :
-  Inv st -> ordinary st c -> s <> 0 ->
-  core (fst (step st (EBecomeMonitor c s fs))) = core (fst (step st (EDisconnect c))) /\
+Theorem switch_vs_leave st c s rs fs :
+  Inv st -> ordinary st c -> s <> 0 -> memN c (st_unpriv st) = false -> parse_all rs = Some fs ->
+  core (fst (step st (EBecomeMonitor c s true 0 rs))) = core (fst (step st (EDisconnect c))) /\
   forall x, x <> c -> is_monitor st x = false ->
-    Permutation (view x (snd (step st (EBecomeMonitor c s fs)))) (view x (snd (step st (EDisconnect c)))).
+    Permutation (view x (snd (step st (EBecomeMonitor c s true 0 rs)))) (view x (snd (step st (EDisconnect c)))).
 Proof.
-  intros I [Hc Hm] Hs.
+  intros I [Hc Hm] Hs Hu Hpa.
   unfold step. simpl. rewrite Hc. apply N.eqb_neq in Hs. rewrite Hs. simpl. rewrite Hm.
-  unfold to_driver. simpl. unfold become_monitor, disconnect. rewrite Hm.
+  unfold to_driver. simpl. unfold become_monitor_call. rewrite Hu, Hpa. simpl. unfold become_monitor, disconnect. rewrite Hm.
   set (fs' := match fs with [] => [empty_filter] | _ => fs end).
   set (sa1 := upd st (st_conns st) (st_next st) (st_own st) (st_rules st)
                       (st_mrules st ++ map (fun f => (c, f)) fs') (st_mons st) (st_pend st)).
@@ -235,14 +235,25 @@ Proof.
     rewrite <- (A2 c Hma), <- (B2 c Hmb), E. reflexivity.
 Qed.
 
-Lemma run_core_eq h : forall sa sb,
-  Inv sa -> Inv sb -> core sa = core sb -> core (fst (run sa h)) = core (fst (run sb h)).
+Lemma calm_event_core sa sb e : core sa = core sb -> calm_event sa e = calm_event sb e.
 Proof.
-  induction h as [|e h IH]; intros sa sb Ia Ib E; simpl; auto.
+  intros E. assert (H : st_held sa = st_held sb) by (change (st_held (core sa) = st_held (core sb)); rewrite E; reflexivity).
+  destruct e; simpl; auto. unfold has_held. rewrite H. reflexivity.
+Qed.
+
+Lemma run_core_eq h : forall sa sb,
+  Inv sa -> Inv sb -> core sa = core sb -> calm sa h = true ->
+  calm sb h = true /\ core (fst (run sa h)) = core (fst (run sb h)).
+Proof.
+  induction h as [|e h IH]; intros sa sb Ia Ib E Hc; simpl; auto.
+  simpl in Hc. apply andb_true_iff in Hc. destruct Hc as [Hc1 Hc2].
+  assert (Hc1b : calm_event sb e = true) by (rewrite <- (calm_event_core sa sb e E); exact Hc1).
   destruct (step_core_eq sa sb e Ia Ib E) as [E1 _].
-  pose proof (Inv_step sa e Ia) as Ia1. pose proof (Inv_step sb e Ib) as Ib1.
+  pose proof (Inv_step sa e Ia Hc1) as Ia1. pose proof (Inv_step sb e Ib Hc1b) as Ib1.
+  rewrite Hc1b. simpl.
   destruct (step sa e) as [sa1 ia]. destruct (step sb e) as [sb1 ib]. simpl in *.
-  specialize (IH sa1 sb1 Ia1 Ib1 E1). destruct (run sa1 h). destruct (run sb1 h). exact IH.
+  destruct (IH sa1 sb1 Ia1 Ib1 E1 Hc2) as [K1 K2]. split; auto.
+  destruct (run sa1 h). destruct (run sb1 h). exact K2.
 Qed.
 
 Lemma state_after_snoc h1 e h2 : state_after (h1 ++ e :: h2) = fst (run (fst (step (state_after h1) e)) h2).
@@ -251,19 +262,106 @@ Proof.
   destruct (step s1 e) as [s2 i]. simpl. destruct (run s2 h2). reflexivity.
 Qed.
 
+Lemma calm_app st h1 h2 : calm st (h1 ++ h2) = calm st h1 && calm (fst (run st h1)) h2.
+Proof.
+  revert st. induction h1 as [|e h1 IH]; intros st; simpl; auto.
+  rewrite IH, andb_assoc. destruct (step st e) as [s1 i1]. simpl. destruct (run s1 h1). reflexivity.
+Qed.
+
+(* an accepted switch had a privileged caller, the right signature, no flags and rules that all parse *)
+Lemma switch_accepted st c s so fl rs :
+  ordinary st c -> s <> 0 -> is_monitor (fst (step st (EBecomeMonitor c s so fl rs))) c = true ->
+  memN c (st_unpriv st) = false /\ so = true /\ fl = 0 /\ exists fs, parse_all rs = Some fs.
+Proof.
+  intros Ho Hs Hm.
+  destruct (memN c (st_unpriv st)) eqn:Eu.
+  { rewrite (switch_refused st c s so fl rs Ho Hs (or_introl Eu)) in Hm. simpl in Hm. destruct Ho; congruence. }
+  destruct so.
+  2:{ rewrite (switch_refused st c s false fl rs Ho Hs (or_intror (or_introl eq_refl))) in Hm. simpl in Hm. destruct Ho; congruence. }
+  destruct (N.eq_dec fl 0) as [->|Hf].
+  2:{ rewrite (switch_refused st c s true fl rs Ho Hs (or_intror (or_intror (or_introl Hf)))) in Hm. simpl in Hm. destruct Ho; congruence. }
+  destruct (parse_all rs) as [fs|] eqn:Ep.
+  - repeat split; auto. exists fs; reflexivity.
+  - apply parse_all_None in Ep.
+    rewrite (switch_refused st c s true 0 rs Ho Hs (or_intror (or_intror (or_intror Ep)))) in Hm. simpl in Hm. destruct Ho; congruence.
+Qed.
+
 Theorem transparent : C18_transparent_statement.
 Proof.
-  intros h1 x s fs Ho Hs.
-  assert (R1 : reachable (state_after h1)) by (exists h1; reflexivity).
-  pose proof (Inv_reachable _ R1) as I1.
-  destruct (switch_vs_leave (state_after h1) x s fs I1 Ho Hs) as [Ec Hv]. split.
+  intros h1 x s so fl rs Hg Ho Hs bm Hacc.
+  assert (R1 : creachable (state_after h1)) by (exists h1; split; auto).
+  pose proof (Inv_creachable _ R1) as I1.
+  destruct (switch_accepted _ x s so fl rs Ho Hs Hacc) as (Hu & -> & -> & fs & Hp).
+  destruct (switch_vs_leave (state_after h1) x s rs fs I1 Ho Hs Hu Hp) as [Ec Hv]. split.
   - intros c Hc Hm. apply Hv; auto.
-  - intros h2 e c sa sb Hoc. subst sa sb. rewrite !state_after_snoc in *.
-    set (a1 := fst (step (state_after h1) (EBecomeMonitor x s fs))) in *.
+  - intros h2 e c Hg2 sa sb Hoc. subst sa sb bm. rewrite !state_after_snoc in *.
+    rewrite calm_app in Hg2. apply andb_true_iff in Hg2. destruct Hg2 as [_ Hg2]. simpl in Hg2.
+    apply andb_true_iff in Hg2. destruct Hg2 as [Hce Hg2]. fold (state_after h1) in Hce, Hg2.
+    set (a1 := fst (step (state_after h1) (EBecomeMonitor x s true 0 rs))) in *.
     set (b1 := fst (step (state_after h1) (EDisconnect x))) in *.
     assert (Ia1 : Inv a1) by (apply Inv_step; auto). assert (Ib1 : Inv b1) by (apply Inv_step; auto).
-    pose proof (run_core_eq h2 a1 b1 Ia1 Ib1 Ec) as E2.
-    pose proof (Inv_run a1 h2 Ia1) as Ia2. pose proof (Inv_run b1 h2 Ib1) as Ib2.
+    destruct (run_core_eq h2 a1 b1 Ia1 Ib1 Ec Hg2) as [Hgb E2].
+    pose proof (Inv_run a1 h2 Ia1 Hg2) as Ia2. pose proof (Inv_run b1 h2 Ib1 Hgb) as Ib2.
     split; [apply (ordinary_core _ _ c E2 Hoc)|].
     destruct (step_core_eq _ _ e Ia2 Ib2 E2) as [_ H]. apply H; auto.
+Qed.
+
+(* ---------------------------------------------------------------- the accepted switch, exactly *)
+Lemma unlink_all_owned_filter own c : unlink_all own c (owned own c) = filter (fun p => negb (snd p =? c)) own.
+Proof.
+  rewrite unlink_all_filter. apply filter_ext_in. intros [k o] Hin. simpl.
+  destruct (o =? c) eqn:E; simpl; [|rewrite andb_false_r; reflexivity].
+  apply N.eqb_eq in E. subst o. rewrite andb_true_r.
+  assert (H : named (owned own c) k = true).
+  { unfold named. apply existsb_exists. exists k. split; [apply owned_In; auto | apply name_eqb_refl]. }
+  rewrite H. reflexivity.
+Qed.
+
+Theorem switch_exact st c s rs fs :
+  ordinary st c -> s <> 0 -> memN c (st_unpriv st) = false -> parse_all rs = Some fs ->
+  fst (step st (EBecomeMonitor c s true 0 rs)) =
+  mkState (st_conns st) (st_next st) (filter (fun p => negb (snd p =? c)) (st_own st)) (drop_rules (st_rules st) c)
+          (st_mrules st ++ map (fun f => (c, f)) (match fs with [] => [empty_filter] | _ => fs end)) (st_mons st ++ [c])
+          (drop_pending (st_pend st) c) (st_unpriv st) (st_held st).
+Proof.
+  intros [Hc Hm] Hs Hu Hpa.
+  unfold step. simpl. rewrite Hc. apply N.eqb_neq in Hs. rewrite Hs. simpl. rewrite Hm.
+  unfold to_driver. simpl. unfold become_monitor_call. rewrite Hu, Hpa. simpl. unfold become_monitor.
+  set (fs' := match fs with [] => [empty_filter] | _ => fs end).
+  set (sa1 := upd st (st_conns st) (st_next st) (st_own st) (st_rules st)
+                      (st_mrules st ++ map (fun f => (c, f)) fs') (st_mons st) (st_pend st)).
+  pose proof (release_all_state sa1 c (owned (st_own sa1) c)) as Ha.
+  destruct (release_all sa1 c (owned (st_own sa1) c)) as [sa2 rel]. simpl in Ha. subst sa2.
+  unfold noreply_items. simpl. rewrite unlink_all_owned_filter. reflexivity.
+Qed.
+
+(* what every other connection is delivered during the switch: for each name of c, in the order c got them, what a
+   ReleaseName of that name would deliver (NameOwnerChanged to those who match it, NameAcquired to the next in the
+   queue), then NoReply to everybody who was waiting for an answer from c *)
+Theorem switch_signals st c s rs fs x :
+  Inv st -> ordinary st c -> s <> 0 -> memN c (st_unpriv st) = false -> parse_all rs = Some fs -> x <> c ->
+  view x (snd (step st (EBecomeMonitor c s true 0 rs))) =
+  flat_map (fun n => view x (snd (remove_owner st c n))) (owned (st_own st) c) ++ view x (snd (noreply_items st c)).
+Proof.
+  intros I [Hc Hm] Hs Hu Hpa Hx.
+  unfold step. simpl. rewrite Hc. apply N.eqb_neq in Hs. rewrite Hs. simpl. rewrite Hm.
+  unfold to_driver. simpl. unfold become_monitor_call. rewrite Hu, Hpa. simpl. unfold become_monitor.
+  set (fs' := match fs with [] => [empty_filter] | _ => fs end).
+  set (sa1 := upd st (st_conns st) (st_next st) (st_own st) (st_rules st)
+                      (st_mrules st ++ map (fun f => (c, f)) fs') (st_mons st) (st_pend st)).
+  change (st_own sa1) with (st_own st).
+  pose proof (release_all_state sa1 c (owned (st_own st) c)) as Ha.
+  pose proof (NoDup_owned (st_own st) c (own_nodup _ I)) as Hns.
+  assert (Va : view x (snd (release_all sa1 c (owned (st_own st) c))) =
+               flat_map (fun n => view x (snd (remove_owner sa1 c n))) (owned (st_own st) c)).
+  { apply release_all_views; auto. apply (own_nodup _ I). }
+  destruct (release_all sa1 c (owned (st_own st) c)) as [sa2 rel]. simpl in Ha, Va. subst sa2.
+  unfold noreply_items. simpl.
+  rewrite (view_cons x (entry_item st c _)), view_one. simpl.
+  rewrite (view_cons x (from_driver st c _)), (from_driver_view_c c x Hx). simpl.
+  rewrite view_app, Va. f_equal.
+  - apply flat_map_ext_in_local. intros n _. apply remove_owner_view; auto.
+    + split; auto.
+    + apply NoDup_queue. apply (own_nodup _ I).
+  - apply view_of_erase. rewrite !map_map. apply map_ext_in. intros p _. reflexivity.
 Qed.
